@@ -34,7 +34,7 @@ NATFLAGS = ["-std=c++20", "-O1", "-g1", "-DNDEBUG", "-D" + GUARD, "-w",
 
 
 def incflags():
-    return [f"-I{CCL}/{d}" for d in INCS]
+    return [f"-I{CCL}/{d}" for d in INCS] + [f"-I{CCL}/core/test/utils"]
 
 
 def run(cmd, **kw):
